@@ -245,7 +245,7 @@ pub fn reuse_check(format: Format, bytes: &[u8], opts: &Opts) -> Option<(usize, 
     Some((i, la.get(i).cloned().unwrap_or_else(|| "<nothing>".into()), lb.get(i).cloned().unwrap_or_else(|| "<nothing>".into())))
 }
 
-fn nonterm(log: &mut Vec<String>, ty: &str) {
+pub(crate) fn nonterm(log: &mut Vec<String>, ty: &str) {
     log.push(format!("end: {NONTERM}{ty}"));
 }
 
@@ -1232,7 +1232,7 @@ fn bed6_log<R: BufRead>(src: R, o: &Opts) -> Vec<String> {
 
 // ------------------------------------------------------------------------------------------ indexes
 
-fn index_log<I>(r: io::Result<csi::binning_index::Index<I>>, o: &Opts) -> Vec<String>
+pub(crate) fn index_log<I>(r: io::Result<csi::binning_index::Index<I>>, o: &Opts) -> Vec<String>
 where
     I: csi::binning_index::index::reference_sequence::Index + std::fmt::Debug,
 {
